@@ -110,6 +110,16 @@ def TestResults.elem {R : Type} (E : Elem R) : Elem (TestResults R) where
 /-- `std::iter::Sum` for the primitive integers: `iter.fold(0, |a, b| a + b)` -/
 def sumFold {T : Type} [Add T] [OfNat T 0] (l : List T) : T := l.foldl (· + ·) 0
 
+/-- `Sum for f64` over a non-empty list: the left fold in the order given (the identity std starts from, `±0.0`,
+    never changes a non-empty sum, so the fold starts at the first element).  Values are bit patterns. -/
+def sumFoldFloat : List UInt64 → UInt64
+  | [] => 0
+  | x :: xs => (xs.foldl (fun a b => a + Float.ofBits b) (Float.ofBits x)).toBits
+
+/-- `TestResults<Score<f64>>::from(values)` / `TestResults<f64>::from(values)`: results in order, total = their sum -/
+def TestResults.fromFloats (values : List UInt64) : TestResults UInt64 :=
+  { results := values, total := sumFoldFloat values }
+
 /-- `impl From<I: IntoIterator<Item = V>> for TestResults<R>` with `R = Score<T>`:
     `let results: Vec<R> = values.into_iter().map(Into::into).collect();`
     `let total_result = results.iter().sum();`  where `Sum<&Score<T>>` is
